@@ -75,6 +75,9 @@ var (
 type realEnv struct {
 	*env
 	snaps []snapshot
+	// ctxErrs counts the context errors this cluster reader has answered with: a status reader that
+	// receives one must hand it on (nil status, the error), never turn it into a status
+	ctxErrs int
 }
 
 func (e *realEnv) snap() *snapshot {
@@ -89,6 +92,9 @@ func (e *realEnv) Get(_ context.Context, key client.ObjectKey, obj *unstructured
 	id := object.ObjMetadata{Namespace: key.Namespace, Name: key.Name, GroupKind: gk}
 	s := e.snap()
 	if m := s.getErr[id]; m != nil {
+		if m.isCtx() {
+			e.ctxErrs++
+		}
 		return m.goErr()
 	}
 	for _, o := range s.objs {
@@ -104,6 +110,9 @@ func (e *realEnv) ListNamespaceScoped(_ context.Context, list *unstructured.Unst
 	kind := list.GroupVersionKind().Kind
 	s := e.snap()
 	if m := s.listErr[kind]; m != nil {
+		if m.isCtx() {
+			e.ctxErrs++
+		}
 		return m.goErr()
 	}
 	for _, o := range s.objs {
@@ -368,7 +377,17 @@ func runReal(r *rand.Rand, maxPolls int) (*scenario, observation) {
 	base := &env{}
 	re.env = base
 	base.read = func(ctx context.Context, e *env, round int, id object.ObjMetadata) (*event.ResourceStatus, error) {
+		ctxBefore := re.ctxErrs
 		rs, err := realReader.ReadStatus(ctx, re, id)
+		if re.ctxErrs > ctxBefore && err == nil {
+			st := "nil"
+			if rs != nil {
+				st = fmt.Sprintf("%s, %d generated", rs.Status, len(rs.GeneratedResources))
+			}
+			realMu.Lock()
+			realFailures = append(realFailures, fmt.Sprintf("status reader of %s got a context error from the cluster reader and returned a status (%s) instead of the error", id, st))
+			realMu.Unlock()
+		}
 		p := &sc.polls[round]
 		i := idx(id)
 		if _, seen := p.reads[i]; !seen {
